@@ -251,12 +251,16 @@ def errorf (l : Lexer) : Res :=
 /-- classes of the errors `errorfAt` reports (the model keeps the class of an error in the
     item's `val`, one byte, instead of the message text; `errorf` items have the empty class):
     1 "unclosed tag", 2 "unexpected eof while scanning string", 3 "unclosed block comment",
-    4 "unexpected eof when scanning soydoc", 5 "unclosed literal" -/
+    4 "unexpected eof when scanning soydoc", 5 "unclosed literal",
+    6 "expected double closing braces in tag" -/
 def clsTag : UInt8 := 1
 def clsString : UInt8 := 2
 def clsComment : UInt8 := 3
 def clsSoyDoc : UInt8 := 4
 def clsLiteral : UInt8 := 5
+/-- 6 "expected double closing braces in tag": reported at the start of the pending token, the
+    single closing brace (/repo 79f0bfc; it was `errorf`, at `pos` behind the look-ahead character) -/
+def clsBraces : UInt8 := 6
 
 /-- `l.errorfAt(pos, ...)`: an Error item positioned where an unclosed construct begins
     (`l.start`, `docStart` or `l.tagStart`, none of which is ever negative). -/
@@ -782,7 +786,7 @@ def lexLeftDelim (l : Lexer) : Res := do
 /-- `lexRightDelim`: } has already been read -/
 def lexRightDelim (l : Lexer) : Res := do
   let (bad, l) ← badDoubleClose l
-  if bad then errorf l
+  if bad then errorfAt l l.start clsBraces
   else do
     let l ← l.emit .tRightDelim
     pure (some .text, l)
@@ -791,7 +795,7 @@ def lexRightDelim (l : Lexer) : Res := do
 def lexRightDelimEnd (l : Lexer) : Res := do
   let (_, l) ← l.next
   let (bad, l) ← badDoubleClose l
-  if bad then errorf l
+  if bad then errorfAt l l.start clsBraces
   else do
     let l ← l.emit .tRightDelimEnd
     pure (some .text, l)
@@ -999,7 +1003,7 @@ def lexCss (l : Lexer) : Res := do
     let l ← l.backup.emit .tText
     let (_, l) ← l.next
     let (bad, l) ← badDoubleClose l
-    if bad then errorf l
+    if bad then errorfAt l l.start clsBraces
     else do
       let l ← l.emit .tRightDelim
       pure (some .text, l)
@@ -1014,7 +1018,7 @@ def lexLiteral (l : Lexer) : Res := do
   if ch ≠ 125 then errorf l
   else do
     let (bad, l) ← badDoubleClose l
-    if bad then errorf l
+    if bad then errorfAt l l.start clsBraces
     else do
       let l ← l.emit .tRightDelim
       -- Fast forward through the literal section.
